@@ -836,35 +836,33 @@ Definition rmap {A B} (f : A -> B) (r : result A) : result B := x <- r;; Ok (f x
 
 Definition run (v : variant) (entry : N) (na : list N) (ba : list bytes) : result (list tok) :=
   let b := barg 0 ba in
-  match entry with
-  | 1 => rmap (fun r => let '(c, i, p) := r in [TN c; TN i; TB p]) (ppp_hdr v b)
-  | 2 => rmap route_toks
-           (handle_frame v (mk_dcfg (negb (arg 1 na =? 0)) (negb (arg 2 na =? 0)) (negb (arg 3 na =? 0))) (arg 0 na) b)
-  | 3 => rmap opt_toks (ppp_parse_options b)
-  | 4 => rmap pair_toks (pap_req b)
-  | 5 => rmap (fun m => [TB m]) (pap_msg b)
-  | 6 => rmap pair_toks (chap_challenge b)
-  | 7 => rmap (fun o => match o with
+  if entry =? 1 then (rmap (fun r => let '(c, i, p) := r in [TN c; TN i; TB p]) (ppp_hdr v b)) else
+  if entry =? 2 then (rmap route_toks
+           (handle_frame v (mk_dcfg (negb (arg 1 na =? 0)) (negb (arg 2 na =? 0)) (negb (arg 3 na =? 0))) (arg 0 na) b)) else
+  if entry =? 3 then (rmap opt_toks (ppp_parse_options b)) else
+  if entry =? 4 then (rmap pair_toks (pap_req b)) else
+  if entry =? 5 then (rmap (fun m => [TB m]) (pap_msg b)) else
+  if entry =? 6 then (rmap pair_toks (chap_challenge b)) else
+  if entry =? 7 then (rmap (fun o => match o with
                         | None => [TN 0]
                         | Some (r, n) => [TN (if list_eq_dec N.eq_dec r (barg 1 ba) then 2 else 1); TB n]
-                        end) (chap_response b)
-  | 8 => rmap (fun o => [tob o]) (echo_tail b)
-  | 10 => rmap tags_toks (parse_tags b)
-  | 20 => rmap l2_toks (l2tp_parse b)
-  | 21 => rmap avp_toks (parse_avps b)
-  | 22 => rmap (fun x => [tbool x]) (is_l2tpv3 b)
-  | 30 => rmap (fun m => msg6_toks (Some m)) (parse_message6 b)
-  | 31 => rmap (fun mi => msg6_toks (fst mi) ++ ri_toks (snd mi)) (unwrap_relay_top b)
-  | 32 => rmap msg6_toks (unwrap_relay_reply_top b)
-  | 33 => rmap (fun x => [TB x]) (relay_unwrap_reply b)
-  | 34 => rmap (fun o => [tob o]) (relay_txid b)
-  | 40 => rmap (fun x => [TB x]) (insert_option82 b (barg 1 ba) (arg 0 na))
-  | 41 => rmap (fun x => [TB x]) (strip_option82 b)
-  | 42 => rmap (fun x => [TB x]) (set_option4 b (arg 0 na) (barg 1 ba))
-  | 43 => rmap (fun o => [tob o]) (get_option4 b (arg 0 na))
-  | 50 => rmap (fun cr => [tob (fst cr); tob (snd cr)]) (parse_sub82 b)
-  | 51 => rmap pkt4_toks (dhcp_parse b)
-  | 52 => rmap msg4_toks (parse_message4 b)
-  | 60 => rmap (fun o => match o with None => [TNil] | Some (off, w) => [TN off; TB w] end) (attr80_window b)
-  | _ => Err 99
-  end.
+                        end) (chap_response b)) else
+  if entry =? 8 then (rmap (fun o => [tob o]) (echo_tail b)) else
+  if entry =? 10 then (rmap tags_toks (parse_tags b)) else
+  if entry =? 20 then (rmap l2_toks (l2tp_parse b)) else
+  if entry =? 21 then (rmap avp_toks (parse_avps b)) else
+  if entry =? 22 then (rmap (fun x => [tbool x]) (is_l2tpv3 b)) else
+  if entry =? 30 then (rmap (fun m => msg6_toks (Some m)) (parse_message6 b)) else
+  if entry =? 31 then (rmap (fun mi => msg6_toks (fst mi) ++ ri_toks (snd mi)) (unwrap_relay_top b)) else
+  if entry =? 32 then (rmap msg6_toks (unwrap_relay_reply_top b)) else
+  if entry =? 33 then (rmap (fun x => [TB x]) (relay_unwrap_reply b)) else
+  if entry =? 34 then (rmap (fun o => [tob o]) (relay_txid b)) else
+  if entry =? 40 then (rmap (fun x => [TB x]) (insert_option82 b (barg 1 ba) (arg 0 na))) else
+  if entry =? 41 then (rmap (fun x => [TB x]) (strip_option82 b)) else
+  if entry =? 42 then (rmap (fun x => [TB x]) (set_option4 b (arg 0 na) (barg 1 ba))) else
+  if entry =? 43 then (rmap (fun o => [tob o]) (get_option4 b (arg 0 na))) else
+  if entry =? 50 then (rmap (fun cr => [tob (fst cr); tob (snd cr)]) (parse_sub82 b)) else
+  if entry =? 51 then (rmap pkt4_toks (dhcp_parse b)) else
+  if entry =? 52 then (rmap msg4_toks (parse_message4 b)) else
+  if entry =? 60 then (rmap (fun o => match o with None => [TNil] | Some (off, w) => [TN off; TB w] end) (attr80_window b)) else
+  Err 99.
